@@ -70,6 +70,18 @@ func runC20(k *eng.Check, tier string) {
 	for _, cl := range cls {
 		ent, ok := c20Table[cl.Outer]
 		if !ok {
+			// a helper that is only ever called from one classified operation (the operation split into phases)
+			// belongs to that operation
+			outer := eng.Outermost(cl.Fn)
+			for _, n := range c20TableNames() {
+				if seen[n] == 0 && eng.OnlyCalledFrom(outer, map[string]bool{n: true}, k.C.Funcs("store/datas"), 2) {
+					ent, ok = c20Table[n]
+					cl.Outer = n
+					break
+				}
+			}
+		}
+		if !ok {
 			k.Fail("update-closure-classified", eng.Name(cl.Fn), "every closure passed to database.update belongs to a classified operation", k.C.InstrPos(cl.Site.(ssa.Instruction)),
 				"new dataset writer "+cl.Outer+": not in the compare-and-set, delete, forcing or documented blind-writer tables", nil)
 			continue
@@ -738,4 +750,13 @@ func C20IsNeqHelper(f *ssa.Function) bool {
 		}
 	}
 	return n > 0
+}
+
+func c20TableNames() []string {
+	var names []string
+	for n := range c20Table {
+		names = append(names, n)
+	}
+	sort.Strings(names)
+	return names
 }
